@@ -12,6 +12,8 @@
 //!   maxrows <n>
 //!   vars                                            report vars() after every row
 //!   continue                                        keep calling next() after an error item (recorded as an ERR row)
+//!   static                                          also run try_iter_static() and report "static": refused | the rows as
+//!                                                   `line L in [..] exp [Y=e ..]`, and "dynproj": the dynamic rows in that form
 //!   expect ...                                      (ignored here; read by tools/scenarios.py)
 //!   program
 //!   <program text, verbatim, to the end of the file>
@@ -140,6 +142,7 @@ fn main() {
     let mut maxrows = 64usize;
     let mut want_vars = false;
     let mut keep_going = false;
+    let mut want_static = false;
     let mut program = String::new();
     let mut in_prog = false;
     for line in text.split_inclusive('\n') {
@@ -181,6 +184,7 @@ fn main() {
             "maxrows" => maxrows = w[1].parse().unwrap(),
             "vars" => want_vars = true,
             "continue" => keep_going = true,
+            "static" => want_static = true,
             "program" => in_prog = true,
             _ => {}
         }
@@ -220,6 +224,7 @@ fn main() {
     };
     let signames = tc.signals.iter().map(|s| s.name.clone()).collect::<Vec<_>>().join(" ");
     let mut drv = Drv { signals: &tc.signals, cfg, calls: 0, log: vec![] };
+    let mut dynproj: Vec<String> = vec![];
     let res = catch_unwind(AssertUnwindSafe(|| {
         let mut rows = vec![];
         let mut vars = vec![];
@@ -236,6 +241,12 @@ fn main() {
             match it.next() {
                 None => break,
                 Some(Ok(r)) => {
+                    dynproj.push(format!(
+                        "line {} in [{}] exp [{}]",
+                        r.line,
+                        fmt_inputs(&r.inputs),
+                        r.outputs.iter().map(|x| format!("{}={}", x.signal.name, x.expected)).collect::<Vec<_>>().join(" ")
+                    ));
                     rows.push(format!(
                         "line {} in [{}] out [{}]",
                         r.line,
@@ -252,6 +263,7 @@ fn main() {
                     if keep_going {
                         // the caller carries on past an error item (the iterator allows it)
                         let msg = format!("{:?}", e);
+                        dynproj.push("ERR".to_string());
                         rows.push(format!("ERR {}", msg.split('(').take(4).collect::<Vec<_>>().join("(")));
                         if want_vars {
                             let mut v: Vec<(String, i64)> = it.vars().into_iter().collect();
@@ -259,6 +271,7 @@ fn main() {
                             vars.push(v.iter().map(|(k, x)| format!("{k}={x}")).collect::<Vec<_>>().join(" "));
                         }
                     } else {
+                        dynproj.push("ERR".to_string());
                         return (rows, vars, Some(format!("row error: {:?}", e)));
                     }
                 }
@@ -282,6 +295,41 @@ fn main() {
             }
             if let Some(e) = err {
                 o.push_str(&format!(",\"message\":\"{}\"", esc(&e)));
+            }
+            if want_static {
+                let st = catch_unwind(AssertUnwindSafe(|| match tc.try_iter_static() {
+                    Err(_) => None,
+                    Ok(it) => {
+                        let mut v = vec![];
+                        for (n, item) in it.enumerate() {
+                            if n >= maxrows {
+                                v.push("...".to_string());
+                                break;
+                            }
+                            match item {
+                                Ok(r) => v.push(format!(
+                                    "line {} in [{}] exp [{}]",
+                                    r.line,
+                                    fmt_inputs(&r.inputs),
+                                    r.expected.iter().map(|x| format!("{}={}", x.signal.name, x.value)).collect::<Vec<_>>().join(" ")
+                                )),
+                                Err(_) => {
+                                    v.push("ERR".to_string());
+                                    if !keep_going {
+                                        break;
+                                    }
+                                }
+                            }
+                        }
+                        Some(v)
+                    }
+                }));
+                match st {
+                    Err(p) => o.push_str(&format!(",\"static\":\"panic: {}\"", esc(&panic_msg(p)))),
+                    Ok(None) => o.push_str(",\"static\":\"refused\""),
+                    Ok(Some(v)) => o.push_str(&format!(",\"static\":{}", jlist(&v))),
+                }
+                o.push_str(&format!(",\"dynproj\":{}", jlist(&dynproj)));
             }
             o.push('}');
             println!("{}", o);
